@@ -1186,3 +1186,24 @@ func frameAllocs(fn *ssa.Function) []*ssa.Alloc {
 	frameAllocCache[fn] = out
 	return out
 }
+
+var heapAllocCache = map[*ssa.Function][]*ssa.Alloc{}
+
+// heapAllocsOf: every named heap-allocated variable of fn, captured parameters included.
+func heapAllocsOf(fn *ssa.Function) []*ssa.Alloc {
+	symMu.Lock()
+	defer symMu.Unlock()
+	if a, ok := heapAllocCache[fn]; ok {
+		return a
+	}
+	var out []*ssa.Alloc
+	for _, b := range fn.Blocks {
+		for _, in := range b.Instrs {
+			if a, ok := in.(*ssa.Alloc); ok && a.Heap && a.Comment != "" {
+				out = append(out, a)
+			}
+		}
+	}
+	heapAllocCache[fn] = out
+	return out
+}
